@@ -36,6 +36,8 @@ func init() {
 				Edits: []Edit{{File: "channel/write.go", Old: "func (c *Channel) Write(b []byte, r bool) error {\n", New: "func (c *Channel) Write(b []byte, r bool) error {\n\tif len(b) > 1 && b[len(b)-1] == '\\r' {\n\t\tb = b[:len(b)-1]\n\t}\n\n"}}},
 			{ID: "C03-rune-count", Desc: "chunk size counts characters, not bytes", Rule: "C03/framing",
 				Edits: []Edit{{File: "driver/netconf/message.go", Old: "fmt.Sprintf(\"#%d\\n\", len(msg))", New: "fmt.Sprintf(\"#%d\\n\", bytes.Count(msg, nil)-1)"}}},
+			{ID: "C03-close-session-bare-write", Desc: "Close sends a close-session request with a bare Channel.Write", Rule: "C03/framed-only-through-sendrpc",
+				Edits: []Edit{{File: "driver/netconf/driver.go", Old: "\td.done <- true\n\n\terr := d.Channel.Close()", New: "\tif serialized, serr := d.buildPayload(&struct {\n\t\tXMLName xml.Name `xml:\"close-session\"`\n\t}{}).serialize(d.SelectedVersion, d.ForceSelfClosingTags, d.ExcludeHeader); serr == nil {\n\t\t_ = d.Channel.Write(serialized.framedXML, false)\n\t}\n\n\td.done <- true\n\n\terr := d.Channel.Close()"}}},
 			{ID: "C03-second-return-skipped", Desc: "second return skipped when self-closing tags are forced", Rule: "C03/write-sequence",
 				Edits: []Edit{{File: "driver/netconf/rpc.go", Old: "\tif d.SelectedVersion == V1Dot1 {\n\t\terr = d.Channel.WriteReturn()", New: "\tif d.SelectedVersion == V1Dot1 && !d.ForceSelfClosingTags {\n\t\terr = d.Channel.WriteReturn()"}}},
 			{ID: "C03-second-return-inverted", Desc: "second return written for 1.0 instead of 1.1", Rule: "C03/write-sequence",
@@ -83,6 +85,8 @@ func runC03(c *Ctx, r *Report) {
 	r.Rule("C03/error-classes", "each failure site named by the property wraps the sentinel the property names (timeout / auth / connection / privilege / NETCONF / operation / platform error)", 1)
 	checkErrorClasses(c, r, "C03")
 	r.Rule("C03/framing", "serialize: payload, raw copy, 1.0 delimiter and 1.1 chunk framing with the byte length of the value that follows, on all 8 paths", 8)
+	r.Rule("C03/framed-only-through-sendrpc", "the framed bytes of a serialized request are handed to the channel by sendRPC (or a helper only it calls) and nowhere else", 1)
+	checkFramedOnlyThroughSendRPC(c, r, "C03/framed-only-through-sendrpc")
 	r.Rule("C03/write-sequence", "sendRPC writes framed bytes + return, one more return exactly under 1.1, then waits; the response reports the same serialisation", 4)
 	r.Rule("C03/selfclose-guard", "ForceSelfClosingTags rewrites a pattern match only when its opening tag name equals its closing tag name (the pattern alone has no back-reference); group 1 of the pattern starts right behind the opening '<'", 2)
 	r.Rule("C03/op-options-applied", "netconf.NewOperation applies the full per-operation option list (filter, defaults, commit settings) in order", 1)
